@@ -220,6 +220,13 @@ func (ex *Explorer) runPath(sol *Solver, prefix []int) (res *PathResult) {
 				fmt.Fprintln(os.Stderr, "ENGINE ERROR:", ps.detail)
 			}
 		}
+		if ps.outcome == "return" || ps.outcome == "done" {
+			for _, t := range in.threads {
+				if t.state == tsBlocked {
+					in.emitT(t.id, "blocked-at-end", t.name, t.reason)
+				}
+			}
+		}
 		if ex.cfg.CrashIsViolation && (ps.outcome == "return" || ps.outcome == "panic" || ps.outcome == "done") {
 			for _, c := range in.crashes {
 				in.violateWithModel("crash:"+panicKey(c), "no-goroutine-crash", "unrecovered panic on a spawned goroutine: "+c.kind+" at "+c.site+": "+in.panicMessage(c))
@@ -249,9 +256,15 @@ func (ex *Explorer) runPath(sol *Solver, prefix []int) (res *PathResult) {
 	in.runInits()
 	in.steps = 0
 	ps.funcs = map[string]int{}
-	in.callFunction(nil, ex.fn, nil, nil)
-	// late schedule: remaining goroutines run after the harness body
-	in.runPending(nil)
+	// the harness body is thread 0; goroutines it starts are further threads
+	in.yield = make(chan yieldMsg)
+	main := in.newThread("main", nil, nil)
+	in.runq = []int{0}
+	in.startThread(main, func() { in.callFunction(nil, ex.fn, nil, nil) })
+	in.schedule()
+	if main.state != tsDone {
+		in.end("deadlock", "harness body blocked: "+main.reason)
+	}
 	return res
 }
 
